@@ -21,7 +21,9 @@ Record RInvX (s : rstate) (x : option nat) : Prop := {
               r_created j + Z.of_nat (r_delay j) <= t ∧ t <= rs_now s;
   inv_created : ∀ id j, rs_jobs s !! id = Some j → r_created j <= rs_now s;
   inv_x : ∀ id, x = Some id → id ∉ wl_get (rs_wait s) (default 0%nat (r_pipe <$> rs_jobs s !! id));
-  inv_creq : ∀ id j, rs_jobs s !! id = Some j → r_creq j = true → r_completed j = true → r_canceled j = true
+  inv_creq : ∀ id j, rs_jobs s !! id = Some j → r_creq j = true → r_completed j = true → r_canceled j = true;
+  inv_run : ∀ id j, rs_jobs s !! id = Some j → r_is_running j = true → r_live j = true;
+  inv_shutw : rs_shut s = true → ∀ id j, rs_jobs s !! id = Some j → r_removed j = false → r_is_waiting j = false
 }.
 Definition RInv (s : rstate) : Prop := RInvX s None.
 
@@ -94,13 +96,14 @@ Lemma upd_inv s x x' id j f :
   (r_live (f j) = true → is_Some (r_start (f j)) ∧ r_completed (f j) = false ∧ r_canceled (f j) = false) →
   (r_completed (f j) = true → r_is_waiting (f j) = false) →
   (r_creq (f j) = true → r_completed (f j) = true → r_canceled (f j) = true) →
+  (r_is_running (f j) = true → r_live (f j) = true) →
   (r_is_waiting (f j) = true → r_is_waiting j = true ∧ (r_removed j = false → r_timer (f j) = false → r_created j + Z.of_nat (r_delay j) <= rs_now s)) →
   (∀ t, r_start (f j) = Some t → r_created j + Z.of_nat (r_delay j) <= t ∧ t <= rs_now s) →
   (id ∈ wl_get (rs_wait s) (r_pipe j) → r_is_waiting (f j) = true) →
   (x' = x ∨ (x = Some id ∧ x' = None ∧ r_is_waiting (f j) = false)) →
   RInvX (r_upd s id f) x'.
 Proof.
-  intros [] Hj Hp Hc Hd Hr Hlive Hcomp Hcreq Hwait Hstart Hq Hx.
+  intros [] Hj Hp Hc Hd Hr Hlive Hcomp Hcreq Hrun Hwait Hstart Hq Hx.
   split.
   - intros id' j'. rewrite r_upd_lookup. destruct (decide (id = id')) as [<-|Hne]; [|by apply inv_live0].
     rewrite Hj. intros [= <-]. done.
@@ -128,6 +131,11 @@ Proof.
     rewrite Hj in *. simpl in *. by rewrite Hp.
   - intros id' j'. rewrite r_upd_lookup. destruct (decide (id = id')) as [<-|Hne]; [|by apply inv_creq0].
     rewrite Hj. intros [= <-]. done.
+  - intros id' j'. rewrite r_upd_lookup. destruct (decide (id = id')) as [<-|Hne]; [|by apply inv_run0].
+    rewrite Hj. intros [= <-]. done.
+  - intros Hs id' j'. rewrite r_upd_lookup. destruct (decide (id = id')) as [<-|Hne]; [|by apply inv_shutw0].
+    rewrite Hj. intros [= <-] Hrm. rewrite Hr in Hrm. destruct (r_is_waiting (f j)) eqn:E; [|done].
+    destruct (Hwait eq_refl) as [Hw _]. rewrite (inv_shutw0 Hs id j Hj Hrm) in Hw. done.
 Qed.
 
 (** changing one wait list: jobs may leave it (one of them becoming the exempt job) and the exempt job may join it *)
@@ -180,11 +188,11 @@ Proof.
 Qed.
 
 Lemma append_inv s j :
-  RInv s → r_start j = None → r_completed j = false → r_live j = false → r_created j = rs_now s →
+  RInv s → rs_shut s = false → r_start j = None → r_completed j = false → r_live j = false → r_created j = rs_now s →
   (r_timer j = false → r_delay j = 0%nat) →
   RInvX (r_set_jobs s (rs_jobs s ++ [j])) (Some (length (rs_jobs s))).
 Proof.
-  intros [] Hst Hco Hli Hcr Htd.
+  intros [] Hshut Hst Hco Hli Hcr Htd.
   assert (Hfresh : ∀ p, length (rs_jobs s) ∉ wl_get (rs_wait s) p).
   { intros p Hin. destruct (inv_wl0 p _ Hin) as (j' & Hj' & _). apply lookup_lt_Some in Hj'. lia. }
   split; simpl.
@@ -199,6 +207,8 @@ Proof.
   - intros id j' [?|[-> ->]]%lookup_snoc_Some; [by eapply inv_created0|lia].
   - intros id [= <-]. apply Hfresh.
   - intros id j' [?|[-> ->]]%lookup_snoc_Some; [by eapply inv_creq0|congruence].
+  - intros id j' [?|[-> ->]]%lookup_snoc_Some; [by eapply inv_run0|]. unfold r_is_running. by rewrite Hst.
+  - simpl. congruence.
 Qed.
 
 (** ** try_start (exempt job) *)
@@ -225,6 +235,7 @@ Proof.
     all: try (simpl; by eauto).
     all: try (by rewrite Hnw1).
   - eapply (upd_inv s (Some x) None x j); try done.
+    all: try (unfold r_is_running; simpl; rewrite Hst; done).
     all: try (right; by rewrite ?Hnw2).
     all: try (simpl; intros Hl; destruct (inv_live _ _ Hinv x j Hj Hl) as ([? ?] & _); congruence).
     all: try (simpl; rewrite ?Hcomp, ?Hst; done).
@@ -327,7 +338,7 @@ Qed.
 Lemma schedule_inv s p gok sn : RInv s → RInv (r_schedule s p gok sn).1.
 Proof.
   intros Hinv. unfold r_schedule.
-  destruct (rs_shut s); [done|].
+  destruct (rs_shut s) eqn:Hshut; [done|].
   destruct (lookup_def (rs_defs s) p) as [d|] eqn:Hd; [|done].
   set (id := length (rs_jobs s)).
   set (nj := r_new_job s p d gok sn).
@@ -393,6 +404,7 @@ Proof.
     + intros Hl. destruct (inv_live _ _ Hinv prev jp Hjp Hl) as ([t Ht] & _ & Hc).
       apply waiting_inv in Hwp as [? _]. congruence.
     + intros _. unfold r_is_waiting. simpl. by destruct (r_start jp).
+    + unfold r_is_running. simpl. destruct (r_start jp); [by rewrite andb_false_r|done].
     + unfold r_is_waiting. simpl. by destruct (r_start jp).
     + intros t Ht. apply waiting_inv in Hwp as [? _]. congruence.
     + rewrite Hpp, wl_get_set_eq. intros [Hi|Hi%elem_of_list_singleton]%elem_of_app; [done|].
@@ -437,8 +449,9 @@ Proof.
     all: try (simpl; rewrite ?Hst, ?Hcomp; done).
     all: try (simpl; intros Hl; destruct (inv_live _ _ Hinv id j Hj Hl) as ([? ?] & _); congruence).
     all: try by rewrite Hnw.
-    + simpl. rewrite wl_get_set_eq. intros Hi. by apply elem_of_remove_id in Hi as [_ ?].
-    + right. done.
+    all: try (unfold r_is_running; simpl; by rewrite Hst).
+    all: try (simpl; rewrite wl_get_set_eq; intros Hi; by apply elem_of_remove_id in Hi as [_ ?]).
+    all: try (right; done).
 Qed.
 
 Lemma fire_inv s id s' : RInv s → r_fire s id = Some s' → RInv s'.
@@ -452,6 +465,7 @@ Proof.
     all: try (simpl; by apply (inv_live _ _ Hinv id j)).
     all: try (simpl; by apply (inv_comp _ _ Hinv id j)).
     all: try (simpl; by apply (inv_creq _ _ Hinv id j)).
+    all: try (by apply (inv_run _ _ Hinv id j)).
     all: try (simpl; intros t0 Ht0; by apply (inv_start _ _ Hinv id j t0)).
     - intros Hq. destruct (inv_wl _ _ Hinv _ _ Hq) as (j' & Hj' & _ & Hw' & _). rewrite Hj in Hj'. by injection Hj' as <-.
     - by left. }
@@ -473,6 +487,7 @@ Proof.
     all: try by left.
     all: try by rewrite Hnw.
     all: try (simpl; intros Hcq _; rewrite Hcq; by rewrite orb_true_r).
+    all: try (unfold r_is_running; simpl; by rewrite Ht).
     intros Hq. destruct (inv_wl _ _ Hinv _ _ Hq) as (j' & Hj' & _ & Hw' & _). rewrite Hj in Hj'. injection Hj' as <-.
     apply waiting_inv in Hw' as [? _]. congruence. }
   destruct (r_removed j); intros [= <-]; [done|]. by apply dequeue_inv.
@@ -539,6 +554,10 @@ Proof.
   - done.
   - intros id j'. rewrite save_lookup. destruct (rs_jobs s !! id) as [j|] eqn:Hj; [|done]. simpl. intros [= <-].
     destruct (in_ids id rm); simpl; by apply (inv_creq0 id j).
+  - intros id j'. rewrite save_lookup. destruct (rs_jobs s !! id) as [j|] eqn:Hj; [|done]. simpl. intros [= <-].
+    destruct (in_ids id rm); simpl; by apply (inv_run0 id j).
+  - intros Hs id j'. rewrite save_lookup. destruct (rs_jobs s !! id) as [j|] eqn:Hj; [|done]. simpl. intros [= <-].
+    destruct (in_ids id rm); simpl; [done|]. by apply (inv_shutw0 Hs id j).
 Qed.
 
 Lemma terminal_spec now j :
@@ -569,6 +588,8 @@ Proof.
   - intros id j Hj. by apply Ht, terminal_spec in Hj as (_&_&_&_&?&_).
   - done.
   - intros id j Hj Hq. apply Ht, terminal_spec in Hj as (_&_&_&?&_). congruence.
+  - intros id j Hj Hq. apply Ht, terminal_spec in Hj as (?&_). congruence.
+  - done.
 Qed.
 
 Lemma restart_inv s js s' : r_restart s js = Some s' → RInv s'.
@@ -600,6 +621,13 @@ Proof.
   - done.
   - intros id j'. rewrite Hlk. destruct (rs_jobs s !! id) as [j|] eqn:Hj; [|done]. simpl. intros [= <-].
     destruct (in_ids id _); simpl; [done|]. by apply (inv_creq0 id).
+  - intros id j'. rewrite Hlk. destruct (rs_jobs s !! id) as [j|] eqn:Hj; [|done]. simpl. intros [= <-].
+    destruct (in_ids id _); [|by apply (inv_run0 id)]. unfold r_is_running. simpl. destruct (r_start j); [by rewrite andb_false_r|done].
+  - intros _ id j'. rewrite Hlk. destruct (rs_jobs s !! id) as [j|] eqn:Hj; [|done]. simpl. intros [= <-].
+    destruct (in_ids id _) eqn:Hin; [intros _; unfold r_is_waiting; simpl; by destruct (r_start j)|].
+    intros Hrm. destruct (r_is_waiting j) eqn:Hw; [|done]. destruct (rs_shut s) eqn:Hs.
+    + rewrite <- Hw. by apply (inv_shutw0 eq_refl id j).
+    + pose proof (inv_queued0 eq_refl id j ltac:(done) Hj Hw Hrm) as Hq'. apply in_ids_spec in Hq'. congruence.
 Qed.
 
 Lemma cancel_all_inv s : RInv s → RInv (r_cancel_all s).
